@@ -208,6 +208,9 @@ impl Model {
         }
     }
 
+    pub fn is_invalid(&self, h: Hid) -> bool {
+        self.nodes.get(h).map_or(false, |n| n.invalid)
+    }
     pub fn rounds_started(&self) -> u32 {
         self.rounds_started
     }
@@ -273,6 +276,31 @@ impl Model {
             .filter(|o| matches!(o.state, OState::InUse | OState::Disallowed))
             .map(|o| o.hid)
             .collect()
+    }
+
+    /// Propagates invalidity upwards inside the cone of `root` (map-like nodes with an invalid
+    /// input, binds with an invalid left-hand side), to fixpoint.
+    pub(crate) fn spread_invalidity(&mut self, root: Hid) {
+        loop {
+            let cone = self.cone(std::iter::once(root));
+            let mut changed = false;
+            for &h in cone.iter() {
+                if self.nodes[h].invalid {
+                    continue;
+                }
+                let bad = match &self.nodes[h].rk {
+                    RK::Bind { lhs, .. } => self.nodes[*lhs].invalid,
+                    rk => crate::world::rk_inputs(rk).iter().any(|c| self.nodes[*c].invalid),
+                };
+                if bad {
+                    self.invalidate(h);
+                    changed = true;
+                }
+            }
+            if !changed {
+                return;
+            }
+        }
     }
 
     /// Recomputes the necessary set and propagates invalidity to needed dependants, to fixpoint.
@@ -475,7 +503,7 @@ impl Model {
             }
             BodyExpr::Const(c) => norm(*c + l),
             BodyExpr::NewVar { v, .. } => norm(*v + l),
-            BodyExpr::Map(e, f) => f.ap(l, self.scratch_body(e, l, cx, depth + 1)?),
+            BodyExpr::Map(e, f) | BodyExpr::MapVia(e, f, _) => f.ap(l, self.scratch_body(e, l, cx, depth + 1)?),
             BodyExpr::Map2(a, b, f) => f.ap(
                 self.scratch_body(a, l, cx, depth + 1)?,
                 self.scratch_body(b, l, cx, depth + 1)?,
